@@ -234,7 +234,7 @@ func TestFsizeLimit(t *testing.T) {
 	rec := ev.New(t, prop, "partial-write-rlimit",
 		"rapid: random contents; the child runs with RLIMIT_FSIZE = L < len(new) so the kernel performs a partial write of L bytes and then either kills the process (SIGXFSZ, crash in mid-write) or fails the write with EFBIG (SIGXFSZ ignored). Non-trivial: the limit took effect (crash or error observed), 0 < L, and new differs from old")
 	base := t.TempDir()
-	ev.Check(t, rec, 60, 1500, func(rt *rapid.T) {
+	ev.Check(t, rec, 40, 800, func(rt *rapid.T) {
 		c := drawCase(rt, 1<<20)
 		_, _, want := c.Contents()
 		if len(want) == 0 {
@@ -405,7 +405,7 @@ func TestStraceSteps(t *testing.T) {
 	rec := ev.New(t, prop, "strace-crash-and-fault-steps",
 		"rapid: random old/new contents and mode; an uninjected strace run of the child finds every system call that touches the target directory (by path or by descriptor); then, for EVERY such call and for the first call after them, the child is SIGKILLed on entering it, and every such call is made to fail with errno values fit for it (one per step in the quick tier, all in the thorough tier); a run counts only if its strace log shows that the injection hit the intended call. Non-trivial: the hit call lies after the creation of the temporary file and not after the rename, and new differs from old")
 	base := t.TempDir()
-	ev.Check(t, rec, 10, 150, func(rt *rapid.T) {
+	ev.Check(t, rec, 6, 30, func(rt *rapid.T) {
 		c := drawCase(rt, 1<<20)
 		pick := rapid.IntRange(0, 59).Draw(rt, "errno.pick")
 		root := scratch(t, base)
